@@ -374,55 +374,101 @@ func checkC13(p *Program, r *Report) {
 	if vols == nil {
 		return
 	}
-	// top of curve: volumes.Get(idx) with idx[0] == nLVA-1
-	var isTopS func(v ssa.Value, subst map[ssa.Value]ssa.Value, depth int) bool
-	isTopS = func(v ssa.Value, subst map[ssa.Value]ssa.Value, depth int) bool {
-		if depth > 4 {
-			return false
-		}
-		for _, o := range origins(v) {
-			// a field of a curves object: what was stored there when the object was built
-			if src, ok := fieldSource(o, subst); ok {
-				if !isTopS(src, subst, depth+1) {
-					return false
-				}
+	// an end of the volume curve: volumes.Get(idx) with idx[0] == 0 ("first") or nLVA-1 ("last")
+	deref := func(v ssa.Value) ssa.Value {
+		for i := 0; i < 4; i++ {
+			if vs := resolveCapturedLoad(v); len(vs) == 1 && vs[0] != v {
+				v = vs[0]
 				continue
 			}
-			c, ok := o.(*ssa.Call)
-			if !ok || callName(c.Common()) != "Get" && callName(c.Common()) != "Get1" {
-				return false
-			}
-			if substOrigin(recvOf(c.Common()), subst) != ssa.Value(vols) {
-				return false
-			}
-			a := callArgs(c.Common())[0]
-			var idxv ssa.Value = a
-			if isIntVec(a.Type()) {
-				a = origin1(a)
-				if src, ok := fieldSource(a, subst); ok {
-					a = origin1(src)
-				}
-				if a == nil {
-					return false
-				}
-				vals, _, unk := vecElemAt(nil2eff(p), a, 0, c)
-				if unk != "" || len(vals) != 1 {
-					return false
-				}
-				idxv = vals[0]
-			}
-			bo, ok := idxv.(*ssa.BinOp)
-			if !ok || bo.Op != token.SUB {
-				return false
-			}
-			if cst, ok := constInt(bo.Y); !ok || cst != 1 {
-				return false
-			}
-			if nlva != nil && substOrigin(bo.X, subst) != ssa.Value(nlva) {
-				return false
-			}
+			break
 		}
-		return true
+		return v
+	}
+	indexEnd := func(a ssa.Value, at ssa.Instruction, subst map[ssa.Value]ssa.Value) string {
+		var idxv ssa.Value = a
+		if isIntVec(a.Type()) {
+			a = origin1(deref(a))
+			if src, ok := fieldSource(a, subst); ok {
+				a = origin1(src)
+			}
+			if a == nil {
+				return ""
+			}
+			if ai, ok := a.(ssa.Instruction); ok && ai.Parent() != at.Parent() {
+				// a vector of the enclosing function read inside a closure: judged as the enclosing function left it
+				// (any later write to it there makes the element unknown below, since every store is looked at)
+				for _, ref := range refsDeep(a) {
+					if st, isStore := ref.(*ssa.Store); isStore && st.Parent() != ai.Parent() {
+						return ""
+					}
+				}
+				blks := ai.Parent().Blocks
+				last := blks[len(blks)-1]
+				for _, b := range blks {
+					if len(b.Instrs) > 0 {
+						if _, isRet := b.Instrs[len(b.Instrs)-1].(*ssa.Return); isRet {
+							last = b
+						}
+					}
+				}
+				at = last.Instrs[len(last.Instrs)-1]
+			}
+			vals, _, unk := vecElemAt(nil2eff(p), a, 0, at)
+			if unk != "" || len(vals) != 1 {
+				return ""
+			}
+			idxv = vals[0]
+		}
+		// `curveEnd := nLVA-1` kept in a variable (a cell when a closure captures it)
+		if o1 := origin1(deref(idxv)); o1 != nil {
+			idxv = o1
+		}
+		if c, ok := constInt(idxv); ok && c == 0 {
+			return "first"
+		}
+		bo, ok := idxv.(*ssa.BinOp)
+		if !ok || bo.Op != token.SUB {
+			return ""
+		}
+		if cst, ok := constInt(bo.Y); !ok || cst != 1 {
+			return ""
+		}
+		if nlva != nil && substOrigin(deref(bo.X), subst) != ssa.Value(nlva) {
+			return ""
+		}
+		return "last"
+	}
+	var endS func(v ssa.Value, subst map[ssa.Value]ssa.Value, depth int) string
+	endS = func(v ssa.Value, subst map[ssa.Value]ssa.Value, depth int) string {
+		if depth > 4 {
+			return ""
+		}
+		res := ""
+		for _, o := range origins(deref(v)) {
+			this := ""
+			// a field of a curves object: what was stored there when the object was built
+			if src, ok := fieldSource(o, subst); ok {
+				this = endS(src, subst, depth+1)
+			} else {
+				c, ok := o.(*ssa.Call)
+				if !ok || callName(c.Common()) != "Get" && callName(c.Common()) != "Get1" {
+					return ""
+				}
+				if substOrigin(deref(recvOf(c.Common())), subst) != ssa.Value(vols) {
+					return ""
+				}
+				this = indexEnd(callArgs(c.Common())[0], c, subst)
+			}
+			if this == "" || res != "" && res != this {
+				return ""
+			}
+			res = this
+		}
+		return res
+	}
+	isTopS := func(v ssa.Value, subst map[ssa.Value]ssa.Value, depth int) bool {
+		return endS(v, subst, depth) == "last"
 	}
 	isTop := func(v ssa.Value) bool { return isTopS(v, map[ssa.Value]ssa.Value{}, 0) }
 	for _, sl := range sls {
@@ -488,6 +534,124 @@ func checkC13(p *Program, r *Report) {
 		})
 	}
 	r.Floor("R13.3", "outflow contributions", r.PerRule["R13.3"][0], 1)
+
+	// ---- R13.9
+	r.Rule("R13.9", "a table lookup capped outside the volume curve holds the nearer end: in the kernel and its closures, a return of ys.Get(i) for a table parameter ys that is reached only when the looked-up volume is below volumes[0] has i = 0, and one reached only when it is above volumes[nLVA-1] has i = nLVA-1 — below the curve the storage has its smallest area and level and its outlets their smallest capacity, not the values at full supply")
+	nCap := 0
+	fnsCap := append([]*ssa.Function{k}, k.AnonFuncs...)
+	// and the helpers and methods of the model's package the kernel reaches (`curves.cappedPiecewise(vol, ys)`): a
+	// parameter that is the same object at every call (the curves object) stands for that object
+	substCap := map[*ssa.Function]map[ssa.Value]ssa.Value{k: {}}
+	for _, a := range k.AnonFuncs {
+		substCap[a] = map[ssa.Value]ssa.Value{}
+	}
+	for i := 0; i < len(fnsCap) && len(fnsCap) < 64; i++ {
+		for _, c := range callsIn(fnsCap[i]) {
+			h := c.Common().StaticCallee()
+			if h == nil || h.Blocks == nil || fnPkg(h) != fnPkg(k) || h == k || len(h.Params) != len(c.Common().Args) {
+				continue
+			}
+			outer := substCap[fnsCap[i]]
+			first := substCap[h] == nil
+			if first {
+				substCap[h] = map[ssa.Value]ssa.Value{}
+				fnsCap = append(fnsCap, h)
+			}
+			for j, prm := range h.Params {
+				a := stripConv(c.Common().Args[j])
+				if o := origin1(a); o != nil {
+					a = o
+				}
+				if s2, ok := outer[a]; ok {
+					a = s2
+				}
+				if old, had := substCap[h][prm]; first {
+					substCap[h][prm] = a
+				} else if had && old != a {
+					delete(substCap[h], prm)
+				}
+			}
+		}
+	}
+	for _, f := range fnsCap {
+		for _, ret := range returnsOf(f) {
+			if len(ret.Results) != 1 {
+				continue
+			}
+			c, ok := origin1(ret.Results[0]).(*ssa.Call)
+			if !ok || callName(c.Common()) != "Get" && callName(c.Common()) != "Get1" {
+				continue
+			}
+			rv, isPrm := origin1(recvOf(c.Common())).(*ssa.Parameter)
+			if !isPrm || rv.Parent() != f || !isNDType(rv.Type()) {
+				continue
+			}
+			sub := func() map[ssa.Value]ssa.Value {
+				m2 := map[ssa.Value]ssa.Value{}
+				for a, b := range substCap[f] {
+					m2[a] = b
+				}
+				return m2
+			}
+			if _, bound := substCap[f][rv]; bound {
+				continue // always the same table: not a lookup helper's table argument
+			}
+			got := indexEnd(callArgs(c.Common())[0], c, sub())
+			want := ""
+			for _, g := range guardsAt(ret.Block()) {
+				bo, ok := g.Cond.(*ssa.BinOp)
+				if !ok {
+					continue
+				}
+				isArg := func(v ssa.Value) bool {
+					prm, ok := origin1(v).(*ssa.Parameter)
+					_, bound := substCap[f][prm]
+					return ok && prm.Parent() == f && !bound
+				}
+				var other ssa.Value
+				below := false
+				switch {
+				case isArg(bo.X) && (bo.Op == token.LSS && g.Val || bo.Op == token.GEQ && !g.Val):
+					other, below = bo.Y, true
+				case isArg(bo.Y) && (bo.Op == token.GTR && g.Val || bo.Op == token.LEQ && !g.Val):
+					other, below = bo.X, true
+				case isArg(bo.X) && (bo.Op == token.GTR && g.Val || bo.Op == token.LEQ && !g.Val):
+					other = bo.Y
+				case isArg(bo.Y) && (bo.Op == token.LSS && g.Val || bo.Op == token.GEQ && !g.Val):
+					other = bo.X
+				default:
+					continue
+				}
+				switch e := endS(other, sub(), 0); {
+				case below && e == "first":
+					want = "first"
+				case !below && e == "last":
+					want = "last"
+				}
+			}
+			if want == "" {
+				continue
+			}
+			nCap++
+			okey := fmt.Sprintf("%s:capped-%s:%s", key, want, rv.Name())
+			side := map[string]string{"first": "below the bottom", "last": "above the top"}[want]
+			if got == want {
+				r.OK("R13.9", fmt.Sprintf("%s: %s of the volume curve the lookup of `%s` holds the %s entry", FuncKey(f), side, rv.Name(), want))
+			} else {
+				what := "an entry that is not the " + want + " one"
+				if got != "" {
+					what = "the " + got + " entry"
+				}
+				r.Fail("R13.9", okey, p.Pos(c.Pos()), fmt.Sprintf("%s of the volume curve the capped lookup of `%s` returns %s instead of the %s one: a storage drawn down below its table gets the area, level or outlet capacity of the other end of the curve", side, rv.Name(), what, want))
+			}
+		}
+	}
+	if nCap == 0 {
+		// the lookups are capped some other way (the volume clamped into the curve's range before interpolating, …):
+		// R13.2 still ties the final level and area to an interpolation against the volumes table
+		r.Unsupported("R13.9", "no table lookup of "+key+" is capped by returns guarded on the ends of the volume curve: which entry is held outside the curve is not decided for this form")
+	}
+	r.Floor("R13.9", "capped ends of table lookups", nCap, 1)
 	checkReleaseRuleOnEveryPath(p, r, m, k, key)
 	// R13.6: a sub-step never outruns what is left of the timestep
 	r.Rule("R13.6", "the sub-step is capped by the time remaining: the Δt subtracted from the remaining-time variable T of the sub-step loop depends on a math.Min(T, ·) evaluated earlier in the same iteration (a call that dominates the subtraction and has T itself as an argument) — a cap by anything else (the whole timestep) lets an accepted sub-step integrate past the end of the timestep while the totals are still divided by its nominal length")
@@ -653,6 +817,101 @@ func checkReleaseRuleOnEveryPath(p *Program, r *Report, m *Model, k *ssa.Functio
 			}
 		}
 		return got[0] && got[1]
+	}
+	// R13.8: the demand the release rule is asked about is the timestep's demand
+	r.Rule("R13.8", "the release rule is given the demand of the timestep: where an argument of a call of the release rule can be the value read from the demand input, it is that value on every feasible way in (a way guarded by a constant-false switch is not feasible) — a demand adjusted on the way makes the release differ from a demand that lies between the curves")
+	{
+		var demandPrm *ssa.Parameter
+		for ii, nm := range m.Inputs {
+			if nm == "demand" && ii < len(k.Params) {
+				demandPrm = k.Params[ii]
+			}
+		}
+		isDemandRead := func(v ssa.Value) bool {
+			c, ok := v.(*ssa.Call)
+			if !ok || demandPrm == nil {
+				return false
+			}
+			nm := callName(c.Common())
+			return (nm == "Get" || nm == "Get1") && recvOf(c.Common()) != nil && isParam(recvOf(c.Common()), demandPrm)
+		}
+		infeasible := func(b *ssa.BasicBlock) bool {
+			for _, g := range guardsAt(b) {
+				if c, ok := g.Cond.(*ssa.Const); ok && c.Value != nil && (c.Value.String() == "true") != g.Val {
+					return true
+				}
+			}
+			return false
+		}
+		var feasible func(v ssa.Value, seen map[ssa.Value]bool, out *[]ssa.Value)
+		feasible = func(v ssa.Value, seen map[ssa.Value]bool, out *[]ssa.Value) {
+			if seen[v] {
+				return
+			}
+			seen[v] = true
+			if ph, ok := v.(*ssa.Phi); ok {
+				for i, e := range ph.Edges {
+					if i < len(ph.Block().Preds) && infeasible(ph.Block().Preds[i]) {
+						continue
+					}
+					feasible(e, seen, out)
+				}
+				return
+			}
+			if u, ok := v.(*ssa.UnOp); ok && u.Op == token.MUL {
+				if vs := resolveCapturedLoad(u); len(vs) > 0 && !(len(vs) == 1 && vs[0] == v) {
+					for _, x := range vs {
+						feasible(x, seen, out)
+					}
+					return
+				}
+				if a, ok := u.X.(*ssa.Alloc); ok {
+					for _, ref := range refs(a) {
+						if st, ok := ref.(*ssa.Store); ok && st.Addr == ssa.Value(a) && !infeasible(st.Block()) {
+							feasible(st.Val, seen, out)
+						}
+					}
+					return
+				}
+			}
+			*out = append(*out, v)
+		}
+		n8 := 0
+		for _, fn := range append([]*ssa.Function{k}, closures...) {
+			for _, c := range callsIn(fn) {
+				cv, ok := c.(*ssa.Call)
+				if !ok || !isRelease(cv) {
+					continue
+				}
+				for ai, a := range c.Common().Args {
+					var os []ssa.Value
+					feasible(a, map[ssa.Value]bool{}, &os)
+					hasRead, other := false, ssa.Value(nil)
+					for _, o := range os {
+						if isDemandRead(o) {
+							hasRead = true
+						} else {
+							other = o
+						}
+					}
+					if !hasRead {
+						continue
+					}
+					n8++
+					okey := fmt.Sprintf("%s:demand-argument#%d.%d", key, n8, ai)
+					if other != nil {
+						pos := c.Pos()
+						if oi, ok := other.(ssa.Instruction); ok && oi.Pos().IsValid() {
+							pos = oi.Pos()
+						}
+						r.Fail("R13.8", okey, p.Pos(pos), "the demand handed to the release rule is, on a feasible path, not the demand input of the timestep but a value computed from it: the release then differs from a demand that lies between the minimum and maximum release curves")
+					} else {
+						r.OK("R13.8", key+": the release rule is asked about the timestep's own demand on every feasible path")
+					}
+				}
+			}
+		}
+		r.Analysed["R13.8 demand arguments of the release rule"] = n8
 	}
 	tl := timeLoops(k)
 	n := 0
@@ -1056,6 +1315,39 @@ func checkBalanceTerms(p *Program, r *Report, m *Model, k *ssa.Function, key str
 			for _, i2 := range bo.Block().Instrs {
 				if sb, ok := i2.(*ssa.BinOp); ok && sb.Op == token.SUB && sb.Y == term && isVolumeVar(sb.X) && phiWeb(sb.X)[sb] {
 					taken = true
+				}
+			}
+			// the spill may be worked out by a scalar helper that returns both the spilled volume and what remains:
+			// `spilled, remaining := spillOverTop(volume, …)` with remaining = volume − spilled inside the helper
+			if ex, isEx := term.(*ssa.Extract); isEx && !taken {
+				if call, isCall := ex.Tuple.(*ssa.Call); isCall {
+					if h := call.Common().StaticCallee(); h != nil && InModule(h) && h.Blocks != nil && len(h.Params) == len(call.Common().Args) {
+						if rets := returnsOf(h); len(rets) == 1 && ex.Index < len(rets[0].Results) {
+							rk := rets[0].Results[ex.Index]
+							for j, rj := range rets[0].Results {
+								sb, isSub := rj.(*ssa.BinOp)
+								if !isSub || sb.Op != token.SUB || !(sb.Y == rk || sameValue(sb.Y, rk)) {
+									continue
+								}
+								prm, isPrm := sb.X.(*ssa.Parameter)
+								if !isPrm {
+									continue
+								}
+								fromVolume := false
+								for pi, q := range h.Params {
+									if q == prm && isVolumeVar(call.Common().Args[pi]) {
+										fromVolume = true
+									}
+								}
+								// … and the kernel takes that result as its new volume
+								for _, ref := range refs(call) {
+									if e2, ok := ref.(*ssa.Extract); ok && e2.Index == j && fromVolume && isVolumeVar(e2) {
+										taken = true
+									}
+								}
+							}
+						}
+					}
 				}
 			}
 			okey := key + ":balance:spill"
